@@ -188,7 +188,7 @@ theorem KeysInv.closed : Closed0 KeysInv where
     · exact publishTry_elim (P := fun x => KeysInv x L) _ now (h1.publish now) h1
     · exact h1
   pkt := fun s L _ c _ _ _ _ _ _ h _ _ _ _ _ => h.updF _ c.key tickInfo (fun _ => rfl) rfl rfl
-  done := fun s L _ c now _ _ _ h _ _ _ _ _ =>
+  done := fun s L _ c now _ _ _ h _ _ _ =>
     h.updF _ c.key (fun f => transferDoneInfo f now) (fun _ => rfl) (transferDoneFile_objs s c.key now)
       (transferDoneFile_nextToi s c.key now)
   fdtPkt := fun _ _ _ _ _ _ _ _ _ h _ _ _ _ _ => h
@@ -400,7 +400,7 @@ theorem SafeInv.closed : Closed0 SafeInv where
     · exact publishTry_elim (P := fun x => SafeInv x L) _ now (h1.publish now) h1
     · exact h1
   pkt := fun _ _ _ _ _ _ _ _ _ _ h _ _ _ _ _ => h
-  done := fun s L _ c now _ _ _ h _ _ _ _ _ =>
+  done := fun s L _ c now _ _ _ h _ _ _ =>
     h.same _ _ (transferDoneFile_panic s c.key now) (transferDoneFile_fdtid s c.key now)
   fdtPkt := fun _ _ _ _ _ _ _ _ _ h _ _ _ _ _ => h
   fdtDone := fun s L c _ now _ _ h _ _ _ _ _ =>
